@@ -6,6 +6,9 @@ mod sc;
 mod util;
 
 mod c09;
+mod c14;
+mod c16;
+mod stk;
 
 use serde_json::{json, Value};
 use std::time::Instant;
@@ -26,6 +29,8 @@ impl Scenario {
 fn scenarios(prop: &str, tier: &str) -> Vec<Scenario> {
     match prop {
         "C09" => c09::scenarios(tier),
+        "C14" => c14::scenarios(tier),
+        "C16" => c16::scenarios(tier),
         _ => vec![],
     }
 }
@@ -50,6 +55,7 @@ fn main() {
     let cfg = sym::Config {
         solver_cmd: solver.split_whitespace().map(|s| s.to_string()).collect(),
         timeout_ms,
+        inc_timeout_ms: arg(&args, "--inc-timeout-ms").and_then(|s| s.parse().ok()).unwrap_or(250),
         threads,
         seed,
         max_paths,
@@ -101,7 +107,7 @@ fn main() {
         results.push(json!({
             "scenario": sc.name,
             "paths": st.paths, "paths_nontrivial": st.paths_nontrivial, "paths_infeasible": st.paths_infeasible, "paths_cut": st.paths_cut,
-            "queries": st.queries, "solver_s": (st.solver_ms as f64) / 1e6,
+            "queries": st.queries, "queries_abstract": st.queries_abstract, "abstract_unsat": st.abstract_unsat, "oneshots": st.oneshots, "solver_s": (st.solver_ms as f64) / 1e6,
             "obligations": st.obligations, "discharged": st.discharged, "discharged_native": st.discharged_native,
             "undecided": st.undecided, "undecided_labels": st.undecided_labels,
             "unknown_branches": st.unknown_branches, "overflow_cuts": st.overflow_cuts,
